@@ -11,7 +11,7 @@
 (***************************************************************************)
 EXTENDS Pyxis, Props, Json
 
-CONSTANTS NB0, Variants, WithB1, B1Vft, Clash, DDs, DDVft, Ptrs
+CONSTANTS NB0, Variants, WithB1, B1Vft, Clash, DDs, DDVft, Ptrs, Split
 
 Leaf(n) == Field(n, "pub", <<>>, TCPtr(TNm("u8")), None, FALSE)
 BaseF(n, t) == Field(n, "pub", <<>>, TNm(t), None, TRUE)
@@ -48,7 +48,7 @@ M0(extra) == Func("m0", "pub", <<" m0 doc">>, <<ArgC>> \o extra, TNm("u32"), 409
 P0 == Func("p0", "priv", <<>>, <<ArgM>>, TNone, 8192, None, "")
 MD == Func("md", "pub", <<>>, <<ArgM, Arg("v", TNm("i64"))>>, TNone, 12288, None, "fastcall")
 
-MkInput(ptr, nb0, v, k, b1, b1v, clash, dd, ddv) ==
+MkInput(ptr, nb0, v, k, b1, b1v, clash, dd, ddv, split) ==
   LET B0 == [TypeDef("B0", "pub", <<Leaf("x0")>>) EXCEPT !.vft = IF nb0 > 0 THEN Vft(None, BaseFuncs(nb0)) ELSE NoVft]
       B1 == [TypeDef("B1", "pub", <<Leaf("x1")>>) EXCEPT !.vft = IF b1v THEN Vft(None, <<H1>>) ELSE NoVft]
       D == [TypeDef("D", "pub", <<BaseF("b0", "B0")>> \o (IF b1 THEN <<BaseF("b1", "B1")>> ELSE <<>>) \o <<Leaf("xd")>>)
@@ -59,34 +59,43 @@ MkInput(ptr, nb0, v, k, b1, b1v, clash, dd, ddv) ==
       impls == <<Impl("B0", <<M0(<<>>), P0>>)>>
                \o (IF b1 THEN <<Impl("B1", <<M0(<<Arg("k", TNm("i32"))>>)>>)>> ELSE <<>>)
                \o <<Impl("D", <<IF clash = "derived" THEN M0(<<>>) ELSE MD>>)>>
-  IN [ptr |-> ptr, mods |-> <<[Module(<<"m">>, <<>>, defs) EXCEPT !.impls = impls]>>]
+      isBase(n) == n \in {"B0", "B1"}
+      mbase == [Module(<<"base">>, <<>>, SelectSeq(defs, LAMBDA x : isBase(x.name)))
+                  EXCEPT !.impls = SelectSeq(impls, LAMBDA x : isBase(x.name))]
+      mder == [Module(<<"m">>, <<<<"base", "B0">>>> \o (IF b1 THEN <<<<"base", "B1">>>> ELSE <<>>),
+                      SelectSeq(defs, LAMBDA x : ~isBase(x.name)))
+                 EXCEPT !.impls = SelectSeq(impls, LAMBDA x : ~isBase(x.name))]
+  IN [ptr |-> ptr,
+      mods |-> IF split THEN <<mder, mbase>>
+               ELSE <<[Module(<<"m">>, <<>>, defs) EXCEPT !.impls = impls]>>]
 
 MCInit ==
   /\ \E ptr \in Ptrs, nb0 \in NB0, v \in Variants, k \in 1..2, b1 \in WithB1, b1v \in B1Vft,
-        clash \in Clash, dd \in DDs, ddv \in DDVft :
+        clash \in Clash, dd \in DDs, ddv \in DDVft, split \in Split :
         /\ k <= Max(nb0, 1)
         /\ (v \in {"none", "same", "ext", "extm0", "trunc", "swap"} => k = 1)
         /\ (nb0 = 0 => v \in {"none", "ext", "extm0"})
         /\ (v = "trunc" => nb0 = 2) /\ (v = "swap" => nb0 = 2)
         /\ (~b1 => ~b1v)
         /\ (dd = "none" => ~ddv)
-        /\ input = MkInput(ptr, nb0, v, k, b1, b1v, clash, dd, ddv)
+        /\ input = MkInput(ptr, nb0, v, k, b1, b1v, clash, dd, ddv, split)
   /\ InitRest
 
 MCSpec == MCInit /\ [][Next]_vars /\ WF_vars(Next)
 
 (* ------------------------------ properties ----------------------------- *)
 Crate == [ptr |-> input.ptr, files |-> out, exts |-> ExtMap(input), real |-> <<>>]
-M == input.mods[1]
-TypeIdx == TypeDefsOf(M)
-PathOf(di) == <<"m", M.defs[di].name>>
+AllTypes == UNION {{<<mi, di>> : di \in TypeDefsOf(input.mods[mi])} : mi \in DOMAIN input.mods}
+ModOfT(x) == input.mods[x[1]]
+DefOfT(x) == input.mods[x[1]].defs[x[2]]
+PathOf(x) == Append(ModOfT(x).path, DefOfT(x).name)
 
 (* C06 for one type definition against the emitted crate                   *)
-P_C06(crate, inp, di) ==
-  LET m == inp.mods[1]
-      d == m.defs[di]
-      it == CrateItemAt(crate, <<"m", d.name>>)
-      l == RustItem(crate, <<"m", d.name>>, 8)
+P_C06(crate, inp, x) ==
+  LET m == inp.mods[x[1]]
+      d == m.defs[x[2]]
+      it == CrateItemAt(crate, Append(m.path, d.name))
+      l == RustItem(crate, Append(m.path, d.name), 8)
       bi == FirstIdx(d.fields, LAMBDA f : f.base)
       baseHas == FirstBaseHasVft(inp, m, d)
   IN /\ VftCompatible(inp, m, d)
@@ -94,7 +103,7 @@ P_C06(crate, inp, di) ==
      /\ baseHas =>
           /\ \A i \in DOMAIN it.fields : it.fields[i].name # "vftable"
           /\ it.vftacc.has /\ it.vftacc.via = d.fields[bi].name
-          /\ it.vftacc.ty = RCPtr(RRaw(<<"m", (IF d.vft.has THEN d.name ELSE "?") \o "Vftable">>)) \/ ~d.vft.has
+          /\ it.vftacc.ty = RCPtr(RRaw(Append(m.path, (IF d.vft.has THEN d.name ELSE "?") \o "Vftable"))) \/ ~d.vft.has
      /\ (~baseHas /\ d.vft.has) =>
           /\ it.fields[1].name = "vftable" /\ l.offs[1] = 0
           /\ Cardinality({i \in DOMAIN it.fields : it.fields[i].name = "vftable"}) = 1
@@ -102,10 +111,10 @@ P_C06(crate, inp, di) ==
      /\ (~baseHas /\ ~d.vft.has) => ~it.vftacc.has
 
 (* C07 for one type definition                                             *)
-P_C07(crate, inp, di) ==
-  LET m == inp.mods[1]
-      d == m.defs[di]
-      p == <<"m", d.name>>
+P_C07(crate, inp, x) ==
+  LET m == inp.mods[x[1]]
+      d == m.defs[x[2]]
+      p == Append(m.path, d.name)
       it == CrateItemAt(crate, p)
       exp == SelectSeq(EffFuncs(inp, p, 8), LAMBDA e : e.field # "")
       fwd == SelectSeq(it.methods, LAMBDA mm : mm.body.k = "field")
@@ -118,18 +127,18 @@ P_C07(crate, inp, di) ==
 
 Inv_C06 ==
   Terminal =>
-    /\ (\E di \in TypeIdx : ~VftCompatible(input, M, M.defs[di])) => Rejected
-    /\ Accepted => \A di \in TypeIdx : P_C06(Crate, input, di)
+    /\ (\E x \in AllTypes : ~VftCompatible(input, ModOfT(x), DefOfT(x))) => Rejected
+    /\ Accepted => \A x \in AllTypes : P_C06(Crate, input, x)
 
-Inv_C07 == Accepted => \A di \in TypeIdx : P_C07(Crate, input, di)
+Inv_C07 == Accepted => \A x \in AllTypes : P_C07(Crate, input, x)
 
 (* C16 through inheritance: a slot keeps its convention in every derived table *)
 Inv_C16 ==
   Accepted =>
-    \A di \in TypeIdx :
-       LET d == M.defs[di]
-           tab == CrateItemAt(Crate, <<"m", d.name \o "Vftable">>)
-           sigs == OwnTableSigs(input, M, d.vft)
+    \A x \in AllTypes :
+       LET d == DefOfT(x)
+           tab == CrateItemAt(Crate, Append(ModOfT(x).path, d.name \o "Vftable"))
+           sigs == OwnTableSigs(input, ModOfT(x), d.vft)
        IN d.vft.has => \A i \in DOMAIN sigs : tab.fields[i].ty.cc = sigs[i].cc
 
 PViol == (IF Inv_C06 THEN {} ELSE {"C06"}) \cup (IF Inv_C07 THEN {} ELSE {"C07"})
@@ -139,11 +148,12 @@ RegView ==
   LET ps == {p \in DOMAIN reg : reg[p].cat # "pre"}
   IN {[path |-> p, cat |-> reg[p].cat, st |-> reg[p].st, vis |-> reg[p].vis, res |-> reg[p].res] : p \in ps}
 
-TypeOracle(di) ==
-  LET d == M.defs[di]
-      p == PathOf(di)
+TypeOracle(x) ==
+  LET d == DefOfT(x)
+      M == ModOfT(x)
+      p == PathOf(x)
       bi == FirstIdx(d.fields, LAMBDA f : f.base)
-  IN [name |-> d.name,
+  IN [name |-> d.name, path |-> p,
       compatible |-> VftCompatible(input, M, d),
       baseHasVft |-> FirstBaseHasVft(input, M, d),
       ownBlock |-> d.vft.has,
@@ -162,8 +172,8 @@ TypeOracle(di) ==
 ReplayRecord ==
   [group |-> "inherit", input |-> input, order |-> added, sched |-> hist,
    accepted |-> Accepted, err |-> err, pviol |-> IF Terminal THEN PViol ELSE {},
-   oracle |-> [types |-> {TypeOracle(di) : di \in TypeIdx},
-               mustReject |-> \E di \in TypeIdx : ~VftCompatible(input, M, M.defs[di]),
+   oracle |-> [types |-> {TypeOracle(x) : x \in AllTypes},
+               mustReject |-> \E x \in AllTypes : ~VftCompatible(input, ModOfT(x), DefOfT(x)),
                kf |-> <<>>],
    mirror |-> [reg |-> RegView, out |-> out]]
 
